@@ -3,7 +3,7 @@
    raw-trace monitors of the pipeline-level properties (C01, C02, C04, C05, C10, C13, C15).
    A trace entry is (objkind objidx kind a b c d): objkind 1 batcher (idx 0 main, 1 dead queue),
    2 stream, 3 processor, 4 pipeline; stream addresses inside a..d are already stream indices. *)
-From Verif Require Import Base.Sx Model.Batcher Model.BatcherGlue Model.Stream Model.Proc Model.StreamFlow.
+From Verif Require Import Base.Sx Model.Batcher Model.BatcherGlue Model.Stream Model.Proc Model.StreamFlow Model.Charged.
 
 Record pentry := { pok : Z; poi : Z; pk : Z; pa : Z; pb : Z; pc : Z; pd : Z }.
 
@@ -271,6 +271,50 @@ Fixpoint run_flows (n : Z) (sync : bool) (fs : flows) (es : list pentry) (k : Z)
               end
   end.
 
+(* ---- charged-stream hand-off: labels of makeCharged / joinStream replayed through Model/Charged.v ---- *)
+Definition clabel_of (e : pentry) : option clabel :=
+  if (pok e =? 2) && (pk e =? 28) then Some CCharge
+  else if (pok e =? 2) && (pk e =? 29) then Some CPop
+  else if (pok e =? 5) && (pk e =? 19) then Some (CSignal (pa e))
+  else if (pok e =? 5) && (pk e =? 39) then Some CSleep
+  else if (pok e =? 5) && (pk e =? 34) then Some (CWake (negb (pb e =? 0)))
+  else None.
+
+Fixpoint run_charged (s : cst) (es : list pentry) (k : Z) : Z * bool :=
+  match es with
+  | [] => (k, true)
+  | e :: r =>
+      if (pok e =? 4) && (pk e =? 110) then (k, true)          (* quiescence reached: shutdown follows *)
+      else match clabel_of e with
+           | Some l => match cstep s l with
+                       | Some s' => run_charged s' r (k + 1)
+                       | None => (k, false)
+                       end
+           | None => run_charged s r (k + 1)
+           end
+  end.
+
+(* raw monitor (C04 "no processor asleep while work is queued"), independent of the LTS: the counters are
+   rebuilt from the labels alone (a wake-up exists only where a Signal label is), and the predicate is
+   evaluated at the start of every chargedMu critical section *)
+Fixpoint m_no_sleeper (es : list pentry) (q sl w : Z) : bool :=
+  match es with
+  | [] => true
+  | e :: r =>
+      (* at quiescence every wake-up that was issued must have been consumed: a Signal that did not wake
+         anybody although a processor slept shows up here *)
+      if (pok e =? 4) && (pk e =? 110) then (w =? 0) else
+      let ok := (sl <=? w) || (q <=? w) in
+      match clabel_of e with
+      | Some CCharge => ok && m_no_sleeper r (q + 1) sl w
+      | Some (CSignal _) => m_no_sleeper r q sl (if w <? sl then w + 1 else w)
+      | Some CSleep => ok && m_no_sleeper r q (sl + 1) w
+      | Some (CWake stop) => if stop then true else ok && m_no_sleeper r q (sl - 1) (Z.max 0 (w - 1))
+      | Some CPop => m_no_sleeper r (q - 1) sl w
+      | None => m_no_sleeper r q sl w
+      end
+  end.
+
 (* ---- helpers -------------------------------------------------------------------------------- *)
 Definition key_eqb (a b : Z * Z) : bool := (fst a =? fst b) && (snd a =? snd b).
 Fixpoint mem_key (k : Z * Z) (l : list (Z * Z)) : bool :=
@@ -405,7 +449,9 @@ Fixpoint m_single_stream (es : list pentry) (holder : list ((Z * Z) * Z)) : bool
   end.
 
 (* ---- C04 (pipeline part): no wedge observed ------------------------------------------------------ *)
-Definition m_no_wedge (es : list pentry) : bool := no_kind 103 es && no_kind 101 es.
+(* 103 stuck, 101 panic, 114 probe event: In-to-commit latency (a, ms) within its bound (b, ms) *)
+Definition m_no_wedge (es : list pentry) : bool :=
+  no_kind 103 es && no_kind 101 es && forallb (fun e => negb (pk e =? 114) || (pa e <=? pb e)) es.
 
 (* ---- verdict assembly ---------------------------------------------------------------------------- *)
 Definition lts_ok (atomic : bool) (c : pcfg) (es : list pentry) : bool * sx :=
@@ -417,8 +463,9 @@ Definition lts_ok (atomic : bool) (c : pcfg) (es : list pentry) : bool * sx :=
   let '(n3, ok3) := run_procs (p_actions c) [] es 0 in
   let '(n4, ok4) := if p_spread c || p_deadq c then (0, true)   (* spread routing / dead queue: recorded findings, not replayed *)
                     else run_flows (p_actions c) (p_outkind c =? 0) {| fl_cur := []; fl_st := [] |} es 0 in
-  (ok && negb (scrashed t) && ok1 && ok2 && negb (crashed s1) && negb (crashed s2) && ok3 && ok4,
-   SL [SL [of_bool ok; SZ n; of_bool (scrashed t)]; summary n1 s1 ok1; summary n2 s2 ok2; SL [of_bool ok3; SZ n3]; SL [of_bool ok4; SZ n4]]).
+  let '(n5, ok5) := run_charged cinit es 0 in
+  (ok && negb (scrashed t) && ok1 && ok2 && negb (crashed s1) && negb (crashed s2) && ok3 && ok4 && ok5,
+   SL [SL [of_bool ok; SZ n; of_bool (scrashed t)]; summary n1 s1 ok1; summary n2 s2 ok2; SL [of_bool ok3; SZ n3]; SL [of_bool ok4; SZ n4]; SL [of_bool ok5; SZ n5]]).
 
 (* a monitor set = list of (monitor id, verdict); the ids of the failing ones are reported in the
    model field of a Violates verdict (known findings are matched on them) *)
@@ -444,7 +491,7 @@ Definition quiescent (es : list pentry) : bool := no_kind 103 es.
 
 (* monitor ids: 1 wedge/panic observed, 2 per-stream commit order, 3 commit twice, 4 conservation,
    5 frontier, 6 commit not via an acknowledged batch, 7 pool conservation, 8 per-source frontier (spread),
-   9 time-out to an idle action, 10 busy action saw another stream *)
+   9 time-out to an idle action, 10 busy action saw another stream, 11 a processor sleeps while a charged stream has no wake-up coming *)
 Definition c02_mon (c : pcfg) (es : list pentry) : list (Z * bool) :=
   [(1, m_no_wedge es); (2, m_commits_increasing es [] []); (3, nodup_keys (input_commits es)); (4, m_conservation es)].
 Definition c01_mon (c : pcfg) (es : list pentry) : list (Z * bool) :=
@@ -453,7 +500,8 @@ Definition c01_mon (c : pcfg) (es : list pentry) : list (Z * bool) :=
        (m_commit_via_batcher es [] && m_outend_before_commit (of_b 0 (bentries es)) [] [] [] &&
         m_outend_before_commit (of_b 1 (bentries es)) [] [] []))].
 Definition c05_mon (c : pcfg) (es : list pentry) : list (Z * bool) := [(1, m_no_wedge es); (7, m_pool_conservation true es)].
-Definition c04_mon (c : pcfg) (es : list pentry) : list (Z * bool) := [(1, m_no_wedge es); (4, m_conservation es)].
+Definition c04_mon (c : pcfg) (es : list pentry) : list (Z * bool) :=
+  [(1, m_no_wedge es); (4, m_conservation es); (11, m_no_sleeper es 0 0 0)].
 Definition c10_mon (c : pcfg) (es : list pentry) : list (Z * bool) := [(1, m_no_wedge es); (8, m_source_frontier es [] [] [])].
 Definition c13_mon (c : pcfg) (es : list pentry) : list (Z * bool) := [(1, m_no_wedge es); (9, m_timeout_to_busy es)].
 Definition c15_mon (c : pcfg) (es : list pentry) : list (Z * bool) :=
